@@ -86,6 +86,12 @@ func newCoreConfig(ct *caseT, o *coreOpts) *CoreConfig {
 	}
 	if o.shamir {
 		conf.Seal = NewTestSeal(ct, &seal.TestSealOpts{Wrapper: seal.WrapperTypeShamir, Logger: log.NewNullLogger()})
+		if o.noInit {
+			// NewTestSeal pre-loads a 1-of-1 configuration; a restarted server reads core/seal-config from storage
+			if s, ok := conf.Seal.(interface{ SetCachedBarrierConfig(*SealConfig) }); ok {
+				s.SetCachedBarrierConfig(nil)
+			}
+		}
 	} else {
 		conf.Seal = NewTestSeal(ct, &seal.TestSealOpts{Logger: log.NewNullLogger()})
 	}
